@@ -217,3 +217,21 @@ package callbacks
 //@   loop "i := 0; i < reflectResults.Len(); i++" entry-do cleanupSets = relSets
 //@   loop "i := 0; i < reflectResults.Len(); i++" invariant a-single-parent-was-reset: cleanedKind == 25 ==> cleanupSets == sets0 + 1
 //@   loop "i := 0; i < reflectResults.Len(); i++" invariant every-parent-of-a-slice-was-reset: (cleanedKind == 23 || cleanedKind == 17) ==> cleanupSets == resetUpTo
+
+//@ # ---------- C13: association values saved once per operation ----------
+//@ # "Each hook fires exactly once per record": a record reached twice through associations in one Create/Update
+//@ # must be saved (and run its hooks) once. The per-operation visit map remembers what was saved; the first
+//@ # batch has to be recorded in the new map before the map is published in the statement settings.
+//@ ghost visitRecorded
+//@ event call loadOrStoreVisitMap
+//@   in callbacks.checkAssociationsSaved
+//@   do visitRecorded = visitRecorded + 1
+//@ func checkAssociationsSaved
+//@   tags C13
+//@   ensures recorded-at-most-once: visitRecorded <= old(visitRecorded) + 1
+//@ site visit-map-published-with-first-batch
+//@   match call gorm.(*DB).Set
+//@   in callbacks.checkAssociationsSaved
+//@   min-sites 1
+//@   assert first-batch-recorded-before-publishing: visitRecorded == old(visitRecorded) + 1 [C13]
+//@   assert published-under-the-visit-key: arg1 == visitMapStoreKey [C13]
